@@ -117,11 +117,14 @@ def writers(ctx, count):
     for i in range(count):
         kind = rng.choice(["netcdf", "netcdf", "csv", "print"])
         shape = rng.choice(c18.SHAPES) if kind == "netcdf" else (rng.choice([1, 3, 6]),)
+        forced = i < 6          # always there: NetCDF writes of several results on a grid that fail while the first result is being assigned
+        if forced:
+            kind, shape = "netcdf", rng.choice([(2, 3), (3, 2), (2, 2, 2)])
         n = int(numpy.prod(shape))
-        k = rng.randrange(1, 5)
+        k = rng.randrange(1, 5) if not forced else rng.randrange(2, 5)
         arrs = []
         for j in range(k):
-            a = eems.rand_array(rng, shape, rng.choice([int, float]), None, rng.choice(["none", "one", "some"]))
+            a = eems.rand_array(rng, shape, rng.choice([int, float]), None, rng.choice(["none", "one", "some"]) if not forced else "one")
             if rng.random() < 0.3 and not numpy.ma.getmaskarray(a).any():
                 a = numpy.ma.array(numpy.ma.getdata(a))          # no mask array at all (mask is the scalar nomask)
             arrs.append(a)
@@ -137,7 +140,10 @@ def writers(ctx, count):
                     outp = os.path.join(tmp, "out%d.nc" % (i % 4))
                     if os.path.exists(outp):
                         os.remove(outp)
-                    NcWrite("W", []).execute(OutFileName=outp, OutFieldNames=prods, DimensionFileName=tpl, DimensionFieldName="elev")
+                    # a third of the NetCDF writes fail part-way (a dimension variable that does not exist, a folder that does not exist): still nothing changes
+                    flt = rng.random() if not forced else 0.01
+                    NcWrite("W", []).execute(OutFileName=outp if not 0.15 < flt < 0.3 else os.path.join(tmp, "no_such_folder", "o.nc"), OutFieldNames=prods, DimensionFileName=tpl,
+                                             DimensionFieldName="elev" if flt > 0.15 else "no_such_variable" if flt > 0.08 or len(shape) < 2 else "d0")   # d0: a variable on one axis only - the assignment of the first result fails
                 elif kind == "csv":
                     CsvWrite("W", []).execute(OutFileName=os.path.join(tmp, "out%d.csv" % (i % 4)), OutFieldNames=prods)
                 else:
@@ -152,6 +158,50 @@ def writers(ctx, count):
             if d:
                 ctx.fail("%s EEMSWrite/PrintVars of %d results changed result no. %d: %s (outcome %s)" % (kind, k, j, d, outcome),
                          {"writer": kind, "shape": shape, "results": [repr(x[4].tolist()) + " mask=" + repr(x[3].astype(int).tolist()) for x in snaps]})
+                break
+
+
+def overshoot_chains(ctx):
+    """fuzzy results whose raw value lies a hair beyond +1 / -1 before limiting (weights and thresholds that are no binary fractions over fully true / fully
+    false cells), and fuzzy fields read from NetCDF variables inside the reader's tolerance: consumed by every single-input fuzzy command - which may hand its
+    input on or limit in place - the producer's stored result stays what it was"""
+    import os
+    from . import c18
+    rng = ctx.rng
+    t = numpy.ma.array([1.0, -1.0, 1.0, -1.0, 0.5, 1.0], mask=[False, False, False, False, False, True])
+    u = numpy.ma.array([1.0, -1.0, 1.0, -1.0, 0.25, 1.0], mask=[False] * 6)
+    raw = numpy.ma.array([0.1, 0.7, 0.3, 0.9, 0.2, 0.5])
+    producers = [Case("FuzzyWeightedUnion", {"Weights": w}, [t.copy(), u.copy(), t.copy()][:len(w)]) for w in ([0.1, 0.2, 0.3], [0.7, 0.1, 0.2], [0.3, 0.6], [1.1, 2.3, 0.7], [0.1] * 3)]
+    producers += [Case("FuzzyUnion", {}, [t.copy(), u.copy(), t.copy()]), Case("FuzzySelectedUnion", {"TruestOrFalsest": "Truest", "NumberToConsider": 3}, [t.copy(), u.copy(), t.copy()]),
+                  Case("CvtToFuzzy", {"TrueThreshold": 0.7, "FalseThreshold": 0.1}, [raw.copy()]), Case("CvtToFuzzy", {"TrueThreshold": 0.3, "FalseThreshold": 0.9}, [raw.copy()]),
+                  Case("CvtToFuzzy", {}, [raw.copy()]), Case("CvtToFuzzyCurve", {"RawValues": [0.1, 0.3, 0.9], "FuzzyValues": [-1, 1, -1]}, [raw.copy()]),
+                  Case("CvtToFuzzyZScore", {"TrueThresholdZScore": 0.3, "FalseThresholdZScore": -0.7}, [raw.copy()])]
+    results = []
+    for c in producers:
+        o = eems.run_impl(c, copy_inputs=False)
+        if o["status"] == "ok":
+            results.append(("%s %r" % (c.cmd, c.params), o["result"]))
+    tmp = common.tmpdir("mpv_c09r_")
+    for vt in ("f4", "f8"):
+        arr = numpy.ma.array(numpy.array([1.005, -1.004, 0.5, 1.0, -1.0, 1.0199], dtype="f4" if vt == "f4" else "f8"), mask=[False] * 5 + [True])
+        path = os.path.join(tmp, "pad_%s.nc" % vt)
+        c18.make_var_file(path, (6,), arr, vtype=vt)
+        out = c18.read_impl(path, "v", "Fuzzy", None)
+        if out[0] == "ok":
+            results.append(("NetCDF EEMSRead(DataType = Fuzzy) of a %s variable holding %r" % (vt, arr.tolist()), out[1]))
+        else:
+            ctx.fail("a %s variable inside the fuzzy tolerance read as Fuzzy: %s" % (vt, out[1]), {"values": arr.tolist()})
+    consumers = [("FuzzyOr", {}), ("FuzzyAnd", {}), ("FuzzyNot", {}), ("FuzzyUnion", {}), ("FuzzySelectedUnion", {"TruestOrFalsest": "Falsest", "NumberToConsider": 1}),
+                 ("FuzzyWeightedUnion", {"Weights": [1]}), ("CvtFromFuzzy", {"TrueThreshold": 1, "FalseThreshold": -1}), ("Copy", {})]
+    for what, r in results:
+        for cmd, params in consumers:
+            s0 = snapshot(r)
+            o = eems.run_impl(Case(cmd, params, [r]), copy_inputs=False)
+            ctx.count("overshoot_chain_steps")
+            ctx.case("overshoot %s -> %s" % (what, cmd), sample=None)
+            d = changed(s0, r)
+            if d:
+                ctx.fail("the result of %s changed when %s consumed it: %s" % (what, cmd, d), {"producer": what, "consumer": cmd, "result_before": repr(s0[4].tolist())})
                 break
 
 
@@ -272,6 +322,7 @@ def run(ctx):
     sequences(ctx, model, ctx.budget(60, 2500), 8)
     mixed_shapes(ctx, ctx.budget(150, 4000))
     writers(ctx, ctx.budget(40, 1500))
+    overshoot_chains(ctx)
     nonfinite_programs(ctx, ctx.budget(40, 1500))
     return ctx.finish(
         rule="(a) every data command incl. single-input forms of n-ary operators: inputs compared before/after one execute; "
